@@ -544,6 +544,8 @@ class Hist05:
             # are about); where the real run violates the property in an unknown way the violation itself is the report
             self.stats['model'] += 1
             dd = self.mb.compare(pred, r, 'fix', tuple(opts))
+            if getattr(self.mb, 'real_aborted', None):
+                chk.notes.append('fix gave up in the middle of the run (%s): not compared with the model' % self.mb.real_aborted[:160])
             if dd and (property_ok or not any(not v[2] for v in chk.violations)):
                 chk.violation('drift_fix', 'MODEL-DRIFT: the fix model disagrees with the real `fix %s` (%s): %s' % (' '.join(opts), 'which satisfies the property here' if property_ok else 'a known finding shows here', dd[0]),
                               dict(replay, diffs=dd[:6]), no_input=True)
